@@ -450,6 +450,18 @@ pub fn run_c06(tier: Tier) -> Report {
             }
         }
     }
+    // `replace_with` (not modelled by the reference interpreter): hand-written expectations
+    let rw: Vec<J> = vec![
+        fixed("C06", ".r = replace_with(\"abcb\", r'b') -> |m| { if m.string == \"b\" { return \"R\" }; \"x\" }\n.m2 = 1", json!({}), json!({"class": "ok", "value": 1, "event": {"r": "aRcR", "m2": 1}})),
+        fixed("C06", ".r = replace_with(\"abcb\", r'b') -> |m| { .before = 1; return upcase(m.string); .after = 1; \"never\" }\n.m2 = 1", json!({}), json!({"class": "ok", "value": 1, "event": {"r": "aBcB", "before": 1, "m2": 1}})),
+        fixed("C06", ".r = replace_with(\"abcb\", r'[bc]') -> |m| { if m.string == \"c\" { return \"\" }; m.string }\n.m2 = 1", json!({}), json!({"class": "ok", "value": 1, "event": {"r": "abb", "m2": 1}})),
+        fixed("C06", ".r = replace_with(\"ab\", r'b') -> |m| { x = map_values([1, 2]) -> |v| { if v == 1 { return 7 }; v }; to_string(x[0]) + to_string(x[1]) }\n.m2 = 1", json!({}), json!({"class": "ok", "value": 1, "event": {"r": "a72", "m2": 1}})),
+        fixed("C06", ".r = map_values([\"ab\", \"cb\"]) -> |v| { replace_with(v, r'b') -> |m| { return \"R\"; \"x\" } }\n.m2 = 1", json!({}), json!({"class": "ok", "value": 1, "event": {"r": ["aR", "cR"], "m2": 1}})),
+        fixed("C06", ".r = replace_with(string!(.s), r'b', count: 1) -> |m| { return \"R\" }\n.m2 = 1", json!({"s": "abcb"}), json!({"class": "ok", "value": 1, "event": {"s": "abcb", "r": "aRcb", "m2": 1}})),
+        fixed("C06", "if .c == true { return replace_with(\"ab\", r'b') -> |m| { return \"R\" } }\n.m2 = 1", json!({"c": true}), json!({"class": "ok", "value": "aR", "event": {"c": true}})),
+        fixed("C06", ".r = replace_with(\"xyz\", r'b') -> |m| { return \"R\" }\n.m2 = 1", json!({}), json!({"class": "ok", "value": 1, "event": {"r": "xyz", "m2": 1}})),
+    ];
+    law::drive(&mut rep, "replace_with (hand-written expectations)", &rw, fixed_case);
     let _ = tier;
     finish(&mut rep, &cases, &skipped, "all programs S(E1(E2(hole))) over 19 statement contexts × 24×24 expression contexts (incl. optional stdlib parameters and the collection argument of closure functions) × return-holes (3 plain + 2 per-iteration inside closures) plus closure iteration-value programs, each on every event of the 10-event alphabet; a case is non-trivial when the real compiler accepts the program and the reference interpreter defines its outcome; distinct = distinct (program, event)");
     rep
@@ -467,6 +479,16 @@ pub fn run_c07(tier: Tier) -> Report {
     let closure_holes: Vec<(&'static str, P)> =
         vec![("if v == 2 { abort \"it\" }; 1", b(vec![m::if_(m::bin("==", m::var("v"), m::lit_i(2)), vec![P::Abort(Some(Box::new(m::lit_s("it"))))]), m::lit_i(1)]))];
     let cases = context_cases("C07", &holes, &closure_holes, true, &mut skipped);
+    let rw: Vec<J> = vec![
+        fixed("C07", ".r = replace_with(\"abcb\", r'b') -> |m| { .n = 1; abort; \"x\" }\n.m2 = 1", json!({}), json!({"class": "abort", "abort_message": null, "event": {"n": 1}})),
+        fixed("C07", ".r = { to_int(.t); replace_with(string!(.s), r'b') -> |m| { abort \"stop\" } } ?? \"caught\"\n.m2 = 1", json!({"s": "abcb"}), json!({"class": "abort", "abort_message": "stop", "event": {"s": "abcb"}})),
+        fixed("C07", ".r = { to_int(.t); replace_with(string!(.s), r'b') -> |m| { abort \"stop\" } } ?? \"caught\"\n.m2 = 1", json!({"s": "abcb", "t": "x"}), json!({"class": "ok", "value": 1, "event": {"s": "abcb", "t": "x", "r": "caught", "m2": 1}})),
+        fixed("C07", ".r, .e = { x = replace_with(string!(.s), r'b') -> |m| { if .c == true { abort \"stop\" }; \"x\" }; to_int(.t); x }\n.m2 = 1", json!({"s": "ab", "c": true}), json!({"class": "abort", "abort_message": "stop", "event": {"s": "ab", "c": true}})),
+        fixed("C07", ".r, .e = { x = replace_with(string!(.s), r'b') -> |m| { if .c == true { abort \"stop\" }; \"x\" }; to_int(.t); x }\n.m2 = 1", json!({"s": "ab", "c": false}), json!({"class": "ok", "value": 1, "event": {"s": "ab", "c": false, "r": "ax", "e": null, "m2": 1}})),
+        fixed("C07", ".r = replace_with(\"xyz\", r'b') -> |m| { abort }\n.m2 = 1", json!({}), json!({"class": "ok", "value": 1, "event": {"r": "xyz", "m2": 1}})),
+        fixed("C07", ".r = map_values([\"ab\"]) -> |v| { replace_with(v, r'b') -> |m| { abort \"inner\" } }\n.m2 = 1", json!({}), json!({"class": "abort", "abort_message": "inner", "event": {}})),
+    ];
+    law::drive(&mut rep, "replace_with (hand-written expectations)", &rw, fixed_case);
     let _ = tier;
     finish(&mut rep, &cases, &skipped, "all programs S(E1(E2(hole))) over 19 statement contexts × 24×24 expression contexts (incl. optional stdlib parameters and the collection argument of closure functions) × abort-holes (4 plain + 1 per-iteration inside closures), each on every event of the 10-event alphabet; non-trivial = accepted by the real compiler and defined by the reference interpreter; distinct = distinct (program, event)");
     rep
@@ -641,11 +663,13 @@ fn typed_defaults(rep: &mut Report, tier: Tier) {
     ];
     let mut cases: Vec<J> = Vec::new();
     for r in &rhs {
-        for form in 0..3 {
+        for form in 0..4 {
             let prog = match form {
                 0 => format!("ok8, err8 = {r}\n.after = 1"),
                 1 => format!(".ok8, .err8 = {r}\n.after = 1"),
-                _ => format!("ok8 = \"old\"\nerr8 = 7\nok8, err8 = {r}\nok8, err8 = {r}\n.after = 1"),
+                2 => format!("ok8 = \"old\"\nerr8 = 7\nok8, err8 = {r}\nok8, err8 = {r}\n.after = 1"),
+                // the value of the assignment expression itself
+                _ => format!("r8 = (ok8, err8 = {r})\n.after = 1"),
             };
             for e in &events {
                 cases.push(json!({"property": "C08", "program": prog, "event": e, "typed_default": true}));
@@ -712,6 +736,25 @@ pub fn typed_default_case(w: &J) -> CaseResult {
         if !member_lenient(&errv, k) {
             res.violations.push(Violation::new("C08.stored-value-in-static-type", w.clone(), format!("err8 ∈ {k}"), vv::show(&errv)));
         }
+    }
+    // `r8 = (ok8, err8 = e)`: the expression evaluates to e's value or to the message, and is typed accordingly
+    if src.starts_with("r8 = ") {
+        let r8 = rs.variable(&Ident::new("r8")).cloned().unwrap_or(Value::Null);
+        let want = if failed { &errv } else { &okv };
+        if r8 != *want {
+            res.violations.push(Violation::new("C08.expression-value", w.clone(), format!("the assignment expression evaluates to {}", vv::show(want)), vv::show(&r8)));
+        }
+        if failed {
+            for (name, kind, _) in info.state.local.verif_bindings() {
+                if name.as_str() == "r8" && !member_lenient(&r8, &kind) {
+                    res.violations.push(Violation::new("C08.stored-value-in-static-type", w.clone(), format!("r8 ∈ {kind}"), vv::show(&r8)));
+                }
+            }
+        }
+    }
+    // (the program ends with `.after = 1`: anything else means a later expression did not run)
+    if o.value() != Some(&Value::Integer(1)) {
+        res.violations.push(Violation::new("C08.later-expression-runs", w.clone(), "the program continues after the assignment and yields 1".to_string(), o.show()));
     }
     if failed {
         if !matches!(errv, Value::Bytes(_)) {
@@ -842,6 +885,19 @@ pub fn run_c09(tier: Tier) -> Report {
                 m::set(m::var_t("x"), P::If(vec![(p1.clone(), branch(3)), (p2.clone(), branch(4))], Some(branch(5)))),
                 m::marker(2),
             ]);
+            // chains with TWO else-if arms (arms are tried in order; later predicates do not run once one is taken)
+            for p3 in &preds {
+                progs.push(vec![
+                    m::set(m::var_t("y"), m::lit_i(0)),
+                    m::set(m::var_t("x"), P::If(vec![(p1.clone(), branch(3)), (p2.clone(), branch(4)), (p3.clone(), branch(6))], Some(branch(5)))),
+                    m::marker(2),
+                ]);
+            }
+            progs.push(vec![
+                m::set(m::var_t("y"), m::lit_i(0)),
+                P::If(vec![(p1.clone(), branch(3)), (p2.clone(), branch(4)), (m::lit_b(true), branch(6)), (p1.clone(), branch(7))], None),
+                m::marker(2),
+            ]);
             // nested if inside a branch
             progs.push(vec![
                 m::set(m::var_t("y"), m::lit_i(0)),
@@ -879,7 +935,7 @@ pub fn run_c09(tier: Tier) -> Report {
         m::if_else(m::bin("||", m::bin("==", m::var("v"), m::lit_i(1)), side(8, m::bin("==", evp("d"), m::lit_b(true)))), vec![m::lit_i(1)], vec![m::lit_i(2)]),
     )];
     cases.extend(context_cases("C09", &s_holes, &closure_s_holes, tier == Tier::Thorough, &mut skipped));
-    finish(&mut rep, &cases, &skipped, "(plus 4+1 short-circuit / conditional holes under 19 statement contexts × 24 expression contexts, ×24 again in the thorough tier) all programs `x = A op B`, `(A op B) op2 C`, `A op (B op2 C)` for op,op2 ∈ {||,&&} over 13 left operands (null, false, true, 0, \"\", [], {}, event fields, comparisons, side-effecting block) × 7 side-effecting right operands, and all if / else-if / else / nested-if programs over 9 predicates (incl. predicates with their own short-circuit side effects) with marker/assignment/del branches, each on every event of the 10-event alphabet; non-trivial = accepted and modelled; distinct = distinct (program, event)");
+    finish(&mut rep, &cases, &skipped, "(plus 4+1 short-circuit / conditional holes under 19 statement contexts × 24 expression contexts, ×24 again in the thorough tier) all programs `x = A op B`, `(A op B) op2 C`, `A op (B op2 C)` for op,op2 ∈ {||,&&} over 13 left operands (null, false, true, 0, \"\", [], {}, event fields, comparisons, side-effecting block) × 7 side-effecting right operands, and all if / else-if (one, two and three arms) / else / nested-if programs over 9 predicates (incl. predicates with their own short-circuit side effects) with marker/assignment/del branches, each on every event of the 10-event alphabet; non-trivial = accepted and modelled; distinct = distinct (program, event)");
     rep
 }
 
@@ -1026,8 +1082,172 @@ pub fn run_c13(tier: Tier) -> Report {
         ]),
     )];
     cases.extend(context_cases("C13", &n_holes, &closure_n_holes, tier == Tier::Thorough, &mut skipped));
-    finish(&mut rep, &cases, &skipped, "(plus 3+1 closure-call holes under 19 statement contexts × 24 expression contexts, ×24 again in the thorough tier) all programs calling for_each / filter / map_values / map_keys over {object, array} × {0,1,2 elements, event field} × 7 closure bodies (succeeds, fails on every / on the 2nd element, returns, aborts, assigns its parameter, nested closure reusing the names) × outer pre-binding of the parameter names {unset, bound} × handling {bare, `?? \"failed\"`, `ok, err =`}, each on every event of the 10-event alphabet; the oracle compares RuntimeState::variable(k/v) after the run with the reference interpreter (restored or unset); non-trivial = accepted and modelled; distinct = distinct (program, event)");
+    replace_with_scoping(&mut rep);
+    finish(&mut rep, &cases, &skipped, "(plus replace_with scoping programs and the compile-time visibility of every closure parameter after the call; plus 3+1 closure-call holes under 19 statement contexts × 24 expression contexts, ×24 again in the thorough tier) all programs calling for_each / filter / map_values / map_keys over {object, array} × {0,1,2 elements, event field} × 7 closure bodies (succeeds, fails on every / on the 2nd element, returns, aborts, assigns its parameter, nested closure reusing the names) × outer pre-binding of the parameter names {unset, bound} × handling {bare, `?? \"failed\"`, `ok, err =`}, each on every event of the 10-event alphabet; the oracle compares RuntimeState::variable(k/v) after the run with the reference interpreter (restored or unset); non-trivial = accepted and modelled; distinct = distinct (program, event)");
     rep
+}
+
+/// Hand-written expectation cases (constructs the reference interpreter does not model, e.g. `replace_with`):
+/// {"program", "event", "expect": {"class": ok|abort|error, "value"?, "event"?, "abort_message"?}}.
+pub fn fixed_case(w: &J) -> CaseResult {
+    let prop = w["property"].as_str().unwrap_or("C06").to_string();
+    let src = w["program"].as_str().unwrap_or("");
+    let Some(program) = law::prog(src) else {
+        return CaseResult::ok("fixed:rejected").violation(Violation::new(&format!("{prop}.fixed-program-rejected"), w.clone(), "the program compiles".to_string(), law::why_rejected(src)));
+    };
+    let tz = vrlx::utc();
+    let mut t = vrlx::target(vv::dec(&w["event"]), vrlx::empty_object());
+    let o = match guarded(|| vrlx::run_runtime(&program, &mut t, &tz)) {
+        Ok(o) => o,
+        Err(p) => return CaseResult::ok("panic").violation(Violation::new(&format!("{prop}.panic"), w.clone(), "no panic", p)),
+    };
+    let class = match &o {
+        Outcome::Ok(_) | Outcome::Return(_) => "ok",
+        Outcome::Error(_) => "error",
+        _ => "abort",
+    };
+    let exp = &w["expect"];
+    let mut res = CaseResult::ok(&format!("fixed:{class}"));
+    let want_class = exp["class"].as_str().unwrap_or("ok");
+    if class != want_class {
+        res.violations.push(Violation::new(&format!("{prop}.outcome"), w.clone(), format!("outcome {want_class}"), o.show()));
+        return res;
+    }
+    if let Some(v) = exp.get("value") {
+        let v = vv::dec(v);
+        if o.value() != Some(&v) {
+            res.violations.push(Violation::new(&format!("{prop}.result"), w.clone(), format!("result {}", vv::show(&v)), o.show()));
+        }
+    }
+    if let Some(e) = exp.get("event") {
+        let e = vv::dec(e);
+        if t.value != e {
+            res.violations.push(Violation::new(&format!("{prop}.event"), w.clone(), format!("final event {}", vv::show(&e)), vv::show(&t.value)));
+        }
+    }
+    if let (Outcome::Abort(m), Some(want)) = (&o, exp.get("abort_message")) {
+        if m.as_deref() != want.as_str() {
+            res.violations.push(Violation::new(&format!("{prop}.abort-message"), w.clone(), format!("abort message {want}"), format!("{m:?}")));
+        }
+    }
+    res
+}
+
+fn fixed(prop: &str, program: &str, event: J, expect: J) -> J {
+    json!({"property": prop, "fixed": true, "program": program, "event": event, "expect": expect})
+}
+
+/// C13, model-free half: `replace_with` (whose closure the reference interpreter does not model) and the
+/// compile-time side of "no closure parameter remains visible" for all five closure-taking functions.
+fn replace_with_scoping(rep: &mut Report) {
+    let subjects = ["\"xyz\"", "\"abc\"", "\"abcabc\"", ".s"];
+    let bodies: [(&str, &str); 6] = [
+        ("succeeds", "upcase(m.string)"),
+        ("fails", "to_string(to_int!(m.string))"),
+        ("returns", "return \"R\""),
+        ("assigns-param", "m = \"inner\"; \"X\""),
+        ("nested", "replace_with(m.string, r'b') -> |m| { m = \"deep\"; \"Y\" }"),
+        ("aborts", "if m.string == \"b\" { abort }; \"Z\""),
+    ];
+    let pres: [(&str, &str); 4] = [("unset", ""), ("string", "m = \"outer\"\n"), ("object-like-a-match", "m = {\"string\": \"b\", \"captures\": []}\n"), ("null", "m = null\n")];
+    let handlings = ["bare", "coalesce", "ok-err"];
+    let events = [json!({}), json!({"s": "abcb"}), json!({"s": 7})];
+    let mut cases: Vec<J> = Vec::new();
+    for subj in subjects {
+        for (bname, body) in bodies {
+            for (pname, pre) in pres {
+                for h in handlings {
+                    let subj_e = if subj == ".s" { "string!(.s)" } else { subj };
+                    let call = format!("replace_with({subj_e}, r'b') -> |m| {{ {body} }}");
+                    let stmt = match h {
+                        "bare" => format!(".r = {call}"),
+                        "coalesce" => format!(".r = ({call}) ?? \"failed\""),
+                        _ => format!(".r, .e = {call}"),
+                    };
+                    let tail = if pre.is_empty() { String::new() } else { "\n.m_after = m".to_string() };
+                    for e in &events {
+                        cases.push(json!({"property": "C13", "replace_with": true, "program": format!("{pre}{stmt}\n.m2 = 1{tail}"), "event": e,
+                            "pre": pname, "body": bname}));
+                    }
+                }
+            }
+        }
+    }
+    // compile-time: the parameters are not visible after the call (and are visible inside)
+    for (call, params) in [
+        ("for_each([1]) -> |k, v| { .seen = [k, v] }", vec!["k", "v"]),
+        ("filter([1]) -> |k, v| { .seen = [k, v]; true }", vec!["k", "v"]),
+        ("map_values([1]) -> |v| { .seen = v; v }", vec!["v"]),
+        ("map_keys({\"a\": 1}) -> |k| { .seen = k; k }", vec!["k"]),
+        ("replace_with(\"abc\", r'b') -> |m| { .seen = m.string; \"x\" }", vec!["m"]),
+        ("for_each({\"a\": 1}) -> |k, v| { for_each([2]) -> |k, v| { .seen = [k, v] } }", vec!["k", "v"]),
+    ] {
+        for p in params {
+            for wrap in ["{call}\n.after = {p}", ".x = ({call})\n.after = {p}", "if .c == true {{ {call} }}\n.after = {p}", "y = [{call}, 1]\n.after = {p}"] {
+                let prog = wrap.replace("{call}", call).replace("{p}", p).replace("{{", "{").replace("}}", "}");
+                cases.push(json!({"property": "C13", "replace_with": true, "visibility": p, "program": prog, "event": {}}));
+            }
+        }
+    }
+    law::drive(rep, "replace_with+visibility", &cases, replace_with_case);
+}
+
+pub fn replace_with_case(w: &J) -> CaseResult {
+    let src = w["program"].as_str().unwrap_or("");
+    if let Some(p) = w.get("visibility").and_then(J::as_str) {
+        // the read of the parameter after the call must be an undefined-variable error
+        let why = law::why_rejected(src);
+        return if why.contains("E701") {
+            CaseResult::ok("visibility:rejected-E701")
+        } else {
+            CaseResult::ok("visibility:accepted").violation(Violation::new("C13.parameter-visible-after-call", w.clone(), format!("reading `{p}` after the call is an undefined-variable error (E701)"), why))
+        };
+    }
+    let event = vv::dec(&w["event"]);
+    let Some(program) = law::prog(src) else { return CaseResult::trivial(&rejection_class(src)) };
+    let tz = vrlx::utc();
+    let mut t = vrlx::target(event, vrlx::empty_object());
+    let mut rs = RuntimeState::default();
+    let o = match guarded(|| vrlx::run_program(&program, &mut t, &mut rs, &tz)) {
+        Ok(o) => o,
+        Err(p) => return CaseResult::ok("panic").violation(Violation::new("C13.panic", w.clone(), "no panic", p)),
+    };
+    let class = match &o {
+        Outcome::Ok(_) | Outcome::Return(_) => "ok",
+        Outcome::Error(_) => "error",
+        _ => "abort",
+    };
+    let mut res = CaseResult::ok(&format!("replace_with:{class}"));
+    let want: Option<Value> = match w["pre"].as_str().unwrap_or("") {
+        "string" => Some(Value::from("outer")),
+        "object-like-a-match" => Some(vv::dec(&json!({"string": "b", "captures": []}))),
+        "null" => Some(Value::Null),
+        _ => None,
+    };
+    let real = rs.variable(&Ident::new("m")).cloned();
+    let same = match (&want, &real) {
+        (None, None) => true,
+        (Some(Value::Null), None) => true,
+        (Some(a), Some(b)) => a == b,
+        _ => false,
+    };
+    if !same {
+        res.violations.push(Violation::new(
+            "C13.variable",
+            w.clone(),
+            want.as_ref().map_or("variable m is unset after the call".to_string(), |v| format!("variable m = {} after the call", vv::show(v))),
+            real.as_ref().map_or("m is unset".to_string(), vv::show),
+        ));
+    }
+    if class == "ok" {
+        if let (Some(wv), Value::Object(ev)) = (&want, &t.value) {
+            let got = ev.get("m_after").cloned().unwrap_or(Value::Null);
+            if got != *wv {
+                res.violations.push(Violation::new("C13.variable", w.clone(), format!(".m_after = {}", vv::show(wv)), vv::show(&got)));
+            }
+        }
+    }
+    res
 }
 
 fn fname_static(n: &str) -> &'static str {
@@ -1042,6 +1262,12 @@ fn fname_static(n: &str) -> &'static str {
 pub fn replay(_property: &str, w: &J) -> Vec<Violation> {
     if w.get("typed_default").is_some() {
         return typed_default_case(w).violations;
+    }
+    if w.get("replace_with").is_some() {
+        return replace_with_case(w).violations;
+    }
+    if w.get("fixed").is_some() {
+        return fixed_case(w).violations;
     }
     case(w).violations
 }
